@@ -127,7 +127,7 @@ def _obj_spec(ch, kind):
         spec = {"kind": kind, "tr": ch.choice(MATS + [""]), "id": ch.choice([None, "g1"])}
         kids = []
         for _ in range(ch.int(1, 4)):
-            ck = ch.choice(["Path", "Rect", "Circle", "Polyline", "Polygon", "Ellipse", "SimpleLine", "Text", "RectR"])
+            ck = ch.choice(["Path", "Rect", "Circle", "Polyline", "Polygon", "Ellipse", "SimpleLine", "Text", "RectR", "Image", "Image"])
             kids.append(_shape_spec(ch, ck))
         if kind == "GroupNested":
             inner = {"kind": "Group", "tr": ch.choice(MATS), "id": None, "kids": [_shape_spec(ch, ch.choice(["Path", "Rect", "Polygon"])) for _ in range(ch.int(1, 2))]}
